@@ -31,12 +31,13 @@ def layout(m):
         for k in keys:
             if k not in d:
                 raise AnalysisError("anchor vanished: list field %s" % k)
-    # the structural rules reason about a list that is exactly {head, tail} over nodes that are exactly {next}: with further
+    # the structural rules reason about a list that is exactly {head, tail} over nodes that are exactly {next}, walked by an
+    # iterator that is exactly {prevnext, list}: with further
     # state in the list or its nodes (a count, a flag, a back link) emptiness and membership can be decided from that state
     # instead, and these rules cannot tell a correct use of it from a wrong one
-    extra = sorted(set(L) - {"head", "tail"}) + sorted(set(N) - {"next"})
+    extra = sorted(set(L) - {"head", "tail"}) + sorted(set(N) - {"next"}) + sorted(set(I) - {"prevnext", "list"})
     if extra:
-        raise AnalysisError("anchor vanished: list_t / list_node_t carry additional state (%s): the list's representation changed and "
+        raise AnalysisError("anchor vanished: list_t / list_node_t / list_iterator_t carry additional state (%s): the list's representation changed and "
                             "the rules stated over {head, tail, next} cannot decide this tree" % ", ".join(extra))
     return L, N, I
 
@@ -239,6 +240,9 @@ def slot_holds_by_invariant(m, fn, start, p, slot, node, same, head_o, next_o):
     return False
 
 
+I_PREVNEXT = [0]
+
+
 def check_self_walking_remove(chk, m, fn, L, N):
     """list_remove that searches and unlinks in one walk over the links (no list_contains / iterator).  On every returning
     segment: `true` only after a complete unlink of the slot found to hold the node -- slot := node->next, node->next := NULL,
@@ -279,7 +283,20 @@ def check_self_walking_remove(chk, m, fn, L, N):
             k_rm = [k for k, e in enumerate(ev) if e is itrm[0]][0]
             adv = [e for e in ev[:k_rm] if e.kind == "call" and e.callee in ("list_iterate", "list_iterator_next")
                    and C02._is_cursor_of(e.res, it, s, segs_all, set())]
-            if adv:
+            pos_st = [e for k, e in stores if ptr_parts(e.ptr)[0] == ptr_parts(it)[0] and ptr_parts(e.ptr)[0][0] in ("alloca", "sym")]
+            if not adv and pos_st:
+                # the iterator is a local positioned by hand: prevnext := the link that was read and found to hold the node
+                lk = [e.val for e in pos_st if ptr_parts(e.ptr)[1] == ptr_parts(it)[1] + I_PREVNEXT[0]]
+                held = bool(lk) and any(x.kind == "load" and x.ptr == lk[-1] and same(x.val, node) for x in ev)
+                if not held and lk:
+                    held = any(same(("ld", lk[-1], 8), node) or (c_[0] == "icmp") and False for c_ in ())
+                    for c_, t_, i_ in p.conds:
+                        for x in paths.subexprs(c_):
+                            if x[0] == "ld" and x[1] == lk[-1] and same(x, node):
+                                held = True
+                others = [e for k, e in stores if e not in pos_st]
+                ok = held and not others
+            elif adv:
                 # the iterator was moved on this segment: its current node is what the LAST move returned
                 ok = adv[-1].res in cands and not stores
             else:
@@ -291,6 +308,8 @@ def check_self_walking_remove(chk, m, fn, L, N):
             chk.unknown("N5.remove-through-found-position", sid, "list_remove returns %s, which is not a constant nor a recognised delegation" % fmt(ret)[:60], loc)
             continue
         if not ret[2]:
+            stores = [(k, e) for k, e in stores if ptr_parts(e.ptr)[0][0] not in ("alloca",) and not
+                      (ptr_parts(e.ptr)[0][0] == "sym" and any(i_.op == "alloca" and i_.name == ptr_parts(e.ptr)[0][1] for i_ in fn.real_insts()))]
             at_end = any(strip_casts(c)[0] == "icmp" and strip_casts(c)[1] in ("eq", "ne") and ("null",) in strip_casts(c)[2:4]
                          and (strip_casts(c)[1] == "eq") == bool(t) and id(i) for c, t, i in p.conds)
             mut = ("list_insert", "list_insert_sorted", "list_push", "list_extract", "list_remove", "list_iterator_remove", "list_iterator_insert")
@@ -331,7 +350,11 @@ def check_self_walking_remove(chk, m, fn, L, N):
                 if x == ("null",) and y in succ_vals:
                     is_tail = (cc[1] == "eq") == bool(t)
         tail_st = [x for k, x in stores if ptr_parts(x.ptr) == (("arg", 0), tail_o, ())]
-        if is_tail is None:
+        if is_tail is None and ptr_parts(e_unl.ptr) == (("arg", 0), head_o, ()):
+            chk.ob("N3.tail-on-removal", sid, not tail_st,
+                   "unlinked from the head slot: if the node was also the tail the list is now empty and its tail is not read before the "
+                   "next insertion sets it (as in list_extract); otherwise the tail is another node and stays", e_unl.inst.loc, fn.name)
+        elif is_tail is None:
             chk.ob("N3.tail-on-removal", sid, False,
                    "a node is unlinked without asking whether it is list->tail: removing the last node leaves tail dangling, so the next "
                    "tail insertion is lost", e_unl.inst.loc, fn.name)
@@ -468,12 +491,14 @@ def check_iterators(chk, m, L, N, I):
                 chk.ob("N5.contains-hit", "list_contains %s..ret true" % s.lstrip("%"), hit,
                        "true is returned only when the current node is the node searched for", p.ret_inst.loc, fn.name)
             elif s != fn.entry.name:
-                end = any(is_null_on_path(p, x) for x in [strip_casts(c[0])[2] for c in p.conds if strip_casts(c[0])[0] == "icmp"])
+                end = any(is_null_on_path(p, x) for c in p.conds if strip_casts(c[0])[0] == "icmp" for x in strip_casts(c[0])[2:4]
+                          if x != ("null",))
                 chk.ob("N5.contains-miss", "list_contains %s..ret false" % s.lstrip("%"), end,
                        "false is returned only at the end of the list", p.ret_inst.loc, fn.name)
     fn = m.fn("list_remove")
     self_walking = not any(e.kind == "call" and e.callee == "list_contains" for s, p in runs_of(m, fn) for e in p.events)
     if self_walking:
+        I_PREVNEXT[0] = I["prevnext"]
         check_self_walking_remove(chk, m, fn, L, N)
     for s, p in (runs_of(m, fn) if not self_walking else []):
         calls = [e for e in p.events if e.kind == "call"]
